@@ -29,7 +29,11 @@ What mirrors what (all under /repo/libs/core/include/fcppt/container/):
 | `RV.swap`, `moveCtor`, `moveAssign` | `swap`, `object(object&&)` (`impl(impl&&)` + `reset_pointers`), `operator=(object&&)` (= swap) |
 | `Buf.*` | buffer/object_impl.hpp; `appendFrom`, `appendFromOpt`, `readFrom`, `toRawVector` the free functions of the same name |
 | `readChars` | libs/core/src/io/read_chars.cpp |
-| `equalV`, `lessV` | raw_vector/comparison.hpp |
+| `equalV`, `lessV`, `neV`, `gtV`, `geV`, `leV` | raw_vector/comparison.hpp (the four derived operators exactly as defined there) |
+| `RV.refOff`, `readRef`, `writeRef` | `operator[]` (= `*(begin() + i)`), `front()` (= `*begin()`), `back()` (= `*std::prev(end())`), `data()[i]`, const and non-const |
+| `Mid.self`, `insertSelf` | `insert(pos, begin() + a, begin() + b)`: forward `insert_impl` with `_left`/`_right` pointing into the vector's own block |
+| `readFromOpt`, `Buf.index` | buffer/read_from_opt.hpp, `buffer::object::operator[]` |
+| `DynArr.*`, `dynRoundTrip` | dynamic_array_impl.hpp |
 
 The growth policy `new_capacity` is the parameter `g` (`g newSize oldCap`); the theorems only assume
 `newSize ≤ g newSize oldCap`.  The driver instantiates `g` with `growth` (= the code: `max n (2*cap)`).
@@ -166,23 +170,32 @@ inductive Mid where
   | one (s : Src)               -- `*p = _value`
   | rep (n : Nat) (s : Src)     -- `std::uninitialized_fill(p, p + n, _value)`
   | list (xs : List Int)        -- `std::uninitialized_copy(_left, _right, p)`
+  | self (a b : Nat)            -- the same with `[_left, _right)` = `[begin() + a, begin() + b)` of the vector itself
 
 def Mid.count : Mid → Nat
   | .one _ => 1
   | .rep n _ => n
   | .list xs => xs.length
+  | .self a b => b - a
 
 /-- `T const value(_value);` — read the referenced element now -/
 def Mid.resolve (h : Heap) (v : RV) : Mid → M Mid
   | .one s => do let x ← readSrc h v s; pure (.one (.val x))
   | .rep n s => do let x ← readSrc h v s; pure (.rep n (.val x))
   | .list xs => pure (.list xs)
+  | .self a b => pure (.self a b)     -- the range overload copies nothing beforehand
 
 /-- writes the middle part at cell `d` of block `db`; a reference argument is read from the heap as it is now -/
 def writeMid (h : Heap) (v : RV) (db d : Nat) : Mid → M Heap
   | .one s => do let x ← readSrc h v s; h.write db d x
   | .rep n s => do let x ← readSrc h v s; fill h db d x n
   | .list xs => copyIn h db d xs
+  | .self a b => do
+    -- `_left`, `_right` still point into the vector's (old) block, which is read cell by cell as it is now;
+    -- source and destination of `std::uninitialized_copy` must not overlap
+    let vb ← v.ptr
+    if vb = db ∧ ¬ (b ≤ d ∨ d + (b - a) ≤ a) then .error .oob else
+    copyFwd h vb a db d (b - a)
 
 def insertGen (g : Nat → Nat → Nat) (copyFirst : Bool) (h : Heap) (v : RV) (pos : Nat) (m : Mid) : M (Heap × RV) :=
   if pos > v.last then .error .oob else
@@ -226,6 +239,14 @@ def insertRange (g : Nat → Nat → Nat) (h : Heap) (v : RV) (pos : Nat) (xs : 
   if xs.isEmpty then pure (h, v)
   else if fwd then insertGen g true h v pos (.list xs)
   else insertInput g h v pos xs
+
+/-- `insert(position, begin() + a, begin() + b)`: a forward range of the vector itself (std::vector forbids this; here the
+reallocating branch reads the old block before it is freed, the in-place branch reads the block *after* the shift) -/
+def insertSelf (g : Nat → Nat → Nat) (h : Heap) (v : RV) (pos a b : Nat) : M (Heap × RV) :=
+  if ¬ (a ≤ b ∧ b ≤ v.last) then .error .oob else
+  if pos > v.last then .error .oob else
+  if a = b then pure (h, v)
+  else insertGen g true h v pos (.self a b)
 
 def erase1 (h : Heap) (v : RV) (pos : Nat) : M (Heap × RV × Nat) :=
   if pos ≥ v.last then .error .oob else do
@@ -272,12 +293,37 @@ def clear (h : Heap) (v : RV) : M (Heap × RV) := do
   let r ← eraseR h v 0 v.last
   pure (r.1, r.2.1)
 
+/-- an element access that returns a reference: `v[i]` (= `*(begin() + i)`, also `data()[i]`), `front()` (= `*begin()`),
+`back()` (= `*std::prev(end())`) -/
+inductive Acc where
+  | index (i : Nat) | front | back
+
+/-- offset (from `first_`) of the referenced element; the precondition of each accessor is explicit -/
+def RV.refOff (v : RV) : Acc → M Nat
+  | .index i => if i < v.last then .ok i else .error .oob
+  | .front => if v.last ≠ 0 then .ok 0 else .error .oob
+  | .back => if v.last ≠ 0 then .ok (v.last - 1) else .error .oob
+
+/-- reading through the returned reference -/
+def readRef (h : Heap) (v : RV) (a : Acc) : M Int := do
+  let o ← v.refOff a
+  let b ← v.ptr
+  h.read b o
+
+/-- storing through the returned (non-const) reference -/
+def writeRef (h : Heap) (v : RV) (a : Acc) (x : Int) : M Heap := do
+  let o ← v.refOff a
+  let b ← v.ptr
+  h.write b o x
+
 /-- single-vector operations -/
 inductive VOp where
   | pushBack (s : Src) | popBack
   | insert1 (pos : Nat) (s : Src) | insertN (pos n : Nat) (s : Src) | insertRange (pos : Nat) (xs : List Int) (fwd : Bool)
   | erase1 (pos : Nat) | eraseR (l r : Nat)
   | resize (n : Nat) (s : Src) | reserve (n : Nat) | shrink | clear
+  | assign (a : Acc) (x : Int)            -- `v[i] = x`, `v.front() = x`, `v.back() = x`
+  | insertSelf (pos a b : Nat)            -- `v.insert(v.begin() + pos, v.begin() + a, v.begin() + b)`
 
 def vstep (g : Nat → Nat → Nat) (h : Heap) (v : RV) : VOp → M (Heap × RV × Option Nat)
   | .pushBack s => do let r ← pushBack g h v s; pure (r.1, r.2, none)
@@ -291,6 +337,8 @@ def vstep (g : Nat → Nat → Nat) (h : Heap) (v : RV) : VOp → M (Heap × RV 
   | .reserve n => do let r ← reserve g h v n; pure (r.1, r.2, none)
   | .shrink => do let r ← shrinkToFit h v; pure (r.1, r.2, none)
   | .clear => do let r ← clear h v; pure (r.1, r.2, none)
+  | .assign a x => do let h1 ← writeRef h v a x; pure (h1, v, none)
+  | .insertSelf pos a b => do let r ← insertSelf g h v pos a b; pure (r.1, r.2, none)
 
 /-- constructors (all start from `impl_{alloc}` = null pointers) -/
 inductive Ctor where
@@ -325,6 +373,15 @@ def lessV (h : Heap) (a b : RV) : M Bool := do
   let la ← toList h a
   let lb ← toList h b
   pure (lexLt la lb)
+
+/-- comparison.hpp `operator!=`: `!(_left == _right)` -/
+def neV (h : Heap) (a b : RV) : M Bool := do let e ← equalV h a b; pure (!e)
+/-- comparison.hpp `operator>`: `_right < _left` -/
+def gtV (h : Heap) (a b : RV) : M Bool := lessV h b a
+/-- comparison.hpp `operator>=`: `!(_left < _right)` -/
+def geV (h : Heap) (a b : RV) : M Bool := do let l ← lessV h a b; pure (!l)
+/-- comparison.hpp `operator<=`: `!(_left > _right)` -/
+def leV (h : Heap) (a b : RV) : M Bool := do let l ← gtV h a b; pure (!l)
 
 /-! ## buffer -/
 
@@ -422,6 +479,22 @@ def readFrom (g : Nat → Nat → Nat) (h : Heap) (size : Nat) (xs : List Int) :
   let h1 ← Buf.deallocate r.1 r.2.2
   pure (h1, r.2.1)
 
+/-- `read_from_opt<Buffer>(size, f)` = `append_from_opt(Buffer{0U}, size, f)`; the temporary `Buffer{0U}` is destroyed at the
+end of the full expression: moved-from (null) after a success, still owning its resized block after a failure -/
+def readFromOpt (g : Nat → Nat → Nat) (h : Heap) (size : Nat) (xs : Option (List Int)) : M (Heap × Option Buf) := do
+  let c := Buf.ctor h 0
+  let r ← appendFromOpt g c.1 c.2 size xs
+  let h1 ← Buf.deallocate r.1 r.2.2
+  pure (h1, r.2.1)
+
+/-- `buffer[i]`: `*(begin() + i)` on the read area -/
+def Buf.index (h : Heap) (b : Buf) (i : Nat) : M Int :=
+  if i < b.readEnd then
+    match b.base with
+    | some id => h.read id i
+    | none => .error .oob
+  else .error .oob
+
 /-- read_chars.cpp: `read_from_opt` with `stream.read(data, count).good()` / `gcount()`, then `to_raw_vector`.
 `input` is what the stream still holds.  Returns the heap, and the vector if the read was good. -/
 def readChars (g : Nat → Nat → Nat) (h : Heap) (input : List Int) (count : Nat) : M (Heap × Option RV) := do
@@ -442,6 +515,31 @@ def readChars (g : Nat → Nat → Nat) (h : Heap) (input : List Int) (count : N
     let rv := toRawVector mv.1
     let h3 ← Buf.deallocate h2 rv.2
     pure (h3, some rv.1)
+
+/-! ## dynamic_array (dynamic_array_impl.hpp): an allocation of `size_` cells, never resized, not movable -/
+
+structure DynArr where
+  data : Nat
+  size : Nat
+
+/-- `dynamic_array(size)`: `data_{alloc_.allocate(_size)}, size_{_size}` -/
+def DynArr.ctor (h : Heap) (n : Nat) : Heap × DynArr :=
+  let a := h.alloc n
+  (a.1, ⟨a.2, n⟩)
+
+/-- `~dynamic_array()`: `alloc_.deallocate(data_, size_)` -/
+def DynArr.dtor (h : Heap) (d : DynArr) : M Heap := h.free d.data d.size
+
+/-- `data_end() - data()` -/
+def DynArr.dataEnd (d : DynArr) : Nat := d.size
+
+/-- construct, store `xs` through `data()`, read `[data(), data() + xs.length)` back, destroy -/
+def dynRoundTrip (h : Heap) (n : Nat) (xs : List Int) : M (Heap × Nat × Nat × List Int) := do
+  let c := DynArr.ctor h n
+  let h1 ← copyIn c.1 c.2.data 0 xs
+  let l ← readRange h1 c.2.data 0 xs.length
+  let h2 ← DynArr.dtor h1 c.2
+  pure (h2, c.2.size, c.2.dataEnd, l)
 
 /-! ## registers: several vectors and buffers over one heap -/
 
@@ -469,6 +567,7 @@ inductive Op where
   | moveAssign (r s : Nat)                -- r = std::move(s)
   | bctor (b n : Nat)                     -- destroy buffer b, construct with write size n
   | bread (b size : Nat) (xs : List Int)  -- destroy buffer b, b := read_from(size, f)
+  | breadOpt (b size : Nat) (xs : Option (List Int))  -- destroy buffer b, b := read_from_opt(size, f) if it has a value (else a released buffer)
   | b (k : Nat) (o : BOp)
   | bctorMove (b c : Nat)
   | bswap (b c : Nat)
@@ -516,8 +615,7 @@ def step (g : Nat → Nat → Nat) (st : St) : Op → M (St × Option Nat)
     let sw := RV.swap (st.vec r) (st.vec s)
     pure (⟨st.heap, upd (upd st.vec s sw.2) r sw.1, st.buf⟩, none)
   | .moveAssign r s =>
-    -- `operator=(object&&)` is `swap`
-    if r = s then .error .oob else
+    -- `operator=(object&&)` is `swap`; `v = std::move(v)` swaps the object with itself
     let sw := RV.swap (st.vec r) (st.vec s)
     pure (⟨st.heap, upd (upd st.vec s sw.2) r sw.1, st.buf⟩, none)
   | .bctor b n => do
@@ -528,6 +626,12 @@ def step (g : Nat → Nat → Nat) (st : St) : Op → M (St × Option Nat)
     let h ← Buf.deallocate st.heap (st.buf b)
     let x ← readFrom g h size xs
     pure (⟨x.1, st.vec, upd st.buf b x.2⟩, none)
+  | .breadOpt b size xs => do
+    let h ← Buf.deallocate st.heap (st.buf b)
+    let x ← readFromOpt g h size xs
+    match x.2 with
+    | some nb => pure (⟨x.1, st.vec, upd st.buf b nb⟩, some 1)
+    | none => pure (⟨x.1, st.vec, upd st.buf b Buf.null⟩, some 0)
   | .b k o => do
     let x ← bstep g st.heap (st.buf k) o
     pure (⟨x.1, st.vec, upd st.buf k x.2.1⟩, x.2.2)
@@ -540,8 +644,7 @@ def step (g : Nat → Nat → Nat) (st : St) : Op → M (St × Option Nat)
     let sw := Buf.swap (st.buf b) (st.buf c)
     pure (⟨st.heap, st.vec, upd (upd st.buf c sw.2) b sw.1⟩, none)
   | .bmoveAssign b c =>
-    -- `operator=(object&&)`: `_other.swap(*this)`
-    if b = c then .error .oob else
+    -- `operator=(object&&)`: `_other.swap(*this)` (also for `b = std::move(b)`)
     let sw := Buf.swap (st.buf c) (st.buf b)
     pure (⟨st.heap, st.vec, upd (upd st.buf c sw.1) b sw.2⟩, none)
 
